@@ -302,6 +302,51 @@ theorem pInt63n_forward (n : Int) (s r : Stream) (v : Nat) (h : pInt63n n s = so
   · obtain ⟨h1, h2⟩ := int63n_moves_forward _ s r v h
     exact ⟨h1, fun _ => h2, fun hn => by omega⟩
 
+private theorem int31_step (s : Stream) (v : Nat) (r : Stream) (h : int31 s = some (v, r)) : ∃ u, s = u :: r := by
+  unfold int31 at h
+  cases hi : int63 s with
+  | none => simp [hi] at h
+  | some p =>
+    obtain ⟨v1, r1⟩ := p
+    simp only [hi, Option.map_some, Option.some.injEq, Prod.mk.injEq] at h
+    obtain ⟨u, hu⟩ := int63_step s r1 v1 hi
+    exact ⟨u, by rw [← h.2]; exact hu⟩
+
+theorem int31n_moves_forward (n : Nat) (s r : Stream) (v : Nat) (h : int31n n s = some (v, r)) :
+    r <:+ s ∧ r.length < s.length := by
+  unfold int31n at h
+  split at h
+  · cases hi : int31 s with
+    | none => simp [hi] at h
+    | some p =>
+      obtain ⟨v1, r1⟩ := p
+      simp only [hi, Option.map_some, Option.some.injEq, Prod.mk.injEq] at h
+      obtain ⟨u, hu⟩ := int31_step s v1 r1 hi
+      subst hu; rw [← h.2]
+      exact ⟨List.suffix_cons u r1, by simp⟩
+  · cases hl : rejectLoop int31 (two31 - 1 - two31 % n) (s.length + 1) s with
+    | none => simp [hl] at h
+    | some p =>
+      obtain ⟨v1, r1⟩ := p
+      simp only [hl, Option.map_some, Option.some.injEq, Prod.mk.injEq] at h
+      rw [← h.2]
+      exact rejectLoop_forward int31 int31_step _ _ s r1 v1 hl
+
+/-- `prng.Intn(n)`: nothing is read for `n ≤ 0`; otherwise the unread rest is a proper suffix —
+on both the 31-bit and the 63-bit path of `rand.Intn`. -/
+theorem intn_forward (n : Int) (s r : Stream) (v : Nat) (h : intn n s = some (v, r)) :
+    r <:+ s ∧ (0 < n → r.length < s.length) ∧ (n ≤ 0 → r = s) := by
+  unfold intn at h
+  split at h
+  · simp only [Option.some.injEq, Prod.mk.injEq] at h
+    exact ⟨by rw [h.2]; exact List.suffix_refl _, fun hp => by omega, fun _ => h.2.symm⟩
+  · unfold randIntn at h
+    split at h
+    · obtain ⟨h1, h2⟩ := int31n_moves_forward _ s r v h
+      exact ⟨h1, fun _ => h2, fun hn => by omega⟩
+    · obtain ⟨h1, h2⟩ := int63n_moves_forward _ s r v h
+      exact ⟨h1, fun _ => h2, fun hn => by omega⟩
+
 example : int63n 10 [9223372036854775807, 42] = some (2, []) := by decide
 
 /-! ## Concurrent use -/
